@@ -267,8 +267,110 @@ def make_threading_module(sched, flag_names, worker_name="worker"):
         def run(self):
             pass
 
+    # further primitives a changed template may reach for: each operation is a yield point of the controlled scheduler
+    class Event:
+        def __init__(self):
+            self._f = False
+
+        def is_set(self):
+            sched.yield_("EventIsSet")
+            sched.note("EventIsSet %d" % (1 if self._f else 0))
+            return self._f
+
+        isSet = is_set
+
+        def set(self):
+            sched.yield_("EventSet")
+            self._f = True
+            sched.note("EventSet")
+
+        def clear(self):
+            sched.yield_("EventClear")
+            self._f = False
+            sched.note("EventClear")
+
+        def wait(self, timeout=None):
+            if timeout is None:
+                sched.yield_("EventWait", lambda: self._f)
+            else:
+                sched.yield_("EventWait")           # a time-out may fire at any moment
+            sched.note("EventWait %d" % (1 if self._f else 0))
+            return self._f
+
+    class Lock:
+        _reentrant = False
+
+        def __init__(self):
+            self._owner, self._n = None, 0
+
+        def acquire(self, blocking=True, timeout=-1):
+            me = sched.me()
+            if self._reentrant and self._owner is me:
+                self._n += 1
+                return True
+            if blocking and (timeout is None or timeout < 0):
+                sched.yield_("LockAcquire", lambda: self._owner is None)
+            else:
+                sched.yield_("LockAcquire")
+                if self._owner is not None:
+                    sched.note("LockBusy")
+                    return False
+            self._owner, self._n = me, 1
+            sched.note("LockAcquire")
+            return True
+
+        def release(self):
+            if self._owner is None:
+                raise RuntimeError("release unlocked lock")
+            self._n -= 1
+            if self._n == 0:
+                sched.yield_("LockRelease")
+                self._owner = None
+                sched.note("LockRelease")
+
+        def locked(self):
+            return self._owner is not None
+
+        def __enter__(self):
+            self.acquire()
+            return self
+
+        def __exit__(self, *a):
+            self.release()
+            return False
+
+    class RLock(Lock):
+        _reentrant = True
+
+    class _Main:
+        name = "MainThread"
+        daemon = False
+
+        def is_alive(self):
+            return True
+
+    main_obj = _Main()
+    threads = []
+    real_init = Thread.__init__
+
+    def init(self, *a, **k):
+        real_init(self, *a, **k)
+        threads.append(self)
+    Thread.__init__ = init
+
+    def current_thread():
+        me = sched.me()
+        for t in threads:
+            if object.__getattribute__(t, "_kv_ct") is me and me is not None:
+                return t
+        return main_obj
+
     m = types.ModuleType("threading")
     m.Thread = Thread
+    m.Event, m.Lock, m.RLock = Event, Lock, RLock
+    m.current_thread = m.currentThread = current_thread
+    m.main_thread = lambda: main_obj
+    m.get_ident = lambda: id(sched.me())
     return m
 
 
